@@ -17,6 +17,15 @@ Go packages), never wiped between runs.
               re-reservation of an existing file's imports on re-generation.
   literals    constant values rendered into generated Go source (templates.Dump): argument / input-field defaults
               and directive arguments that are input-object literals with several keys, nested objects and lists.
+  federation  the federation plugin x its options: version 1 / 2 (explicit or detected from @link), explicit_requires,
+              computed_requires, @entityResolver(multi: true), 4-12 entities with 1-3 @key each (plain, compound, nested
+              through another entity) and 0-2 @requires fields each (two thirds of the entities have @requires), models in
+              or out of the exec package: every map the plugin ranges over (entities, requires entities, imports of the
+              requires file, builtins) has several entries.
+  autobind    configuration that changes what a SECOND run sees of the first run's output: the package the models are
+              generated into also holds a hand-written file and is listed under `autobind:` (or its types are bound
+              through `models:`), the model package is the exec package itself or a separate one, further hand-written
+              packages are autobound in a random order. `meta["regen"]` is the summary for driver_c18 `gen2`.
 """
 import os
 
@@ -189,6 +198,132 @@ def literals(rng, name):
     extra = "directives:\n  limits:\n    skip_runtime: %s\n" % ("true" if rng.below(3) == 0 else "false")
     return {"files": {"schema.graphql": sdl, "gqlgen.yml": yml(name, ["follow", "none"][rng.below(2)], extra)},
             "meta": {"dimension": "literals", "keys": nk}}
+
+
+# ------------------------------------------------------------------------------------------------ federation
+def federation(rng, name, option=None, version=None, min_requires=3):
+    """option: None (random) | "" | "explicit_requires" | "computed_requires"; version: None (random) | 1 | 2"""
+    if version is None:
+        version = 1 + (rng.below(3) > 0)
+    if option is None:
+        option = ["", "explicit_requires", "explicit_requires", "computed_requires"][rng.below(4)]
+    if option == "computed_requires":
+        version = 2
+    nent = 4 + rng.below(9) if min_requires < 9 else 10 + rng.below(3)     # > 8 entries: beyond one runtime map bucket
+    names = shuffle(rng, WORDS)[:nent + 2]
+    ents, plain = names[:nent], names[nent:]
+    sdl = ""
+    if version == 2:
+        sdl += 'extend schema @link(url: "https://specs.apollo.dev/federation/v2.%d", import: ["@key", "@requires", "@external", "@shareable"])\n' % [0, 3, 7][rng.below(3)]
+    sdl += "directive @entityResolver(multi: Boolean) on OBJECT\n"
+    for t in plain:
+        sdl += "type %s {\n  label: String!\n  count: Int\n}\n" % t
+    need = set(shuffle(rng, range(nent))[:max(min_requires, 2 * nent // 3)])     # entities that have @requires fields
+    summary = []
+    blocks = []
+    for i, t in enumerate(ents):
+        other = ents[(i + 1 + rng.below(nent - 1)) % nent]
+        keys = ['"id"']
+        r = rng.below(6)
+        if r == 1:
+            keys.append('"sku"')
+        elif r == 2:
+            keys.append('"id sku"')
+        elif r == 3:
+            keys = ['"id owner { id }"', '"sku"']
+        elif r == 4:
+            keys = ['"sku"', '"id"', '"owner { id } sku"']
+        multi = rng.below(4) == 0
+        fp = shuffle(rng, FIELDS)
+        body = ["id: ID!", "sku: String!", "owner: %s!" % other, "detail: %s" % plain[rng.below(2)]]
+        nreq = (1 + rng.below(2)) if i in need or rng.below(3) == 0 else 0
+        for k in range(nreq):
+            ext = fp.pop()
+            body.append("%s: Int! @external" % ext)
+            if rng.below(3) == 0:
+                ext2 = fp.pop()
+                body.append("%s: String @external" % ext2)
+                body.append('%s: Int! @requires(fields: "%s %s")' % (fp.pop(), ext, ext2))
+            elif rng.below(3) == 0:
+                body.append('%s: Int @requires(fields: "%s owner { sku }")' % (fp.pop(), ext))
+            else:
+                body.append('%s: Int! @requires(fields: "%s")' % (fp.pop(), ext))
+        blocks.append("type %s %s%s {\n  %s\n}\n" % (t, " ".join("@key(fields: %s)" % k for k in keys),
+                                                 " @entityResolver(multi: true)" if multi else "", "\n  ".join(shuffle(rng, body))))
+        summary.append({"name": t, "keys": len(keys), "requires": nreq, "multi": multi})
+    sdl += "".join(shuffle(rng, blocks))
+    sdl += "type Query {\n  %s\n}\n" % "\n  ".join("%s: %s" % (t.lower(), t) for t in shuffle(rng, ents)[:3])
+    in_exec = rng.below(3) == 0                         # models generated into the exec package
+    y = "schema:\n  - schema.graphql\nexec:\n  filename: generated.go\n  package: %s\n" % name
+    y += "federation:\n  filename: federation.go\n  package: %s\n" % name
+    if version == 1 or rng.below(2):
+        y += "  version: %d\n" % version                # else: detected from the @link url
+    if option:
+        y += "  options:\n    %s: true\n" % option
+    y += "model:\n  filename: %s\n  package: %s\n" % (("models_gen.go", name) if in_exec else ("model/models_gen.go", "model"))
+    if rng.below(3):
+        y += "resolver:\n  layout: follow-schema\n  dir: res\n  package: res\n"
+    y += "skip_mod_tidy: true\n"
+    if option == "computed_requires":
+        y += "call_argument_directives_with_null: true\n"
+    for o in ("omit_complexity", "use_function_syntax_for_execution_context", "omit_slice_element_pointers"):
+        if rng.below(3) == 0:
+            y += "%s: true\n" % o
+    return {"files": {"schema.graphql": sdl, "gqlgen.yml": y},
+            "meta": {"dimension": "federation", "version": version, "option": option or "none", "entities": summary,
+                     "models_in_exec_package": in_exec}}
+
+
+# ------------------------------------------------------------------------------------------------ autobind
+def autobind(rng, name):
+    tn = shuffle(rng, WORDS)
+    in_exec = rng.below(3) == 0                         # the model package is the exec package itself
+    mdir, mpkg = (".", name) if in_exec else [("model", "model"), ("graph/model", "model"), ("types", "types")][rng.below(3)]
+    bind_auto = rng.below(4) > 0                        # the model package is listed under `autobind:`
+    files, models_yml = {}, ""
+    hand = [tn.pop() for _ in range(1 + rng.below(3))]  # hand-written types living in the model package
+    src = "package %s\n\n" % mpkg
+    for t in hand:
+        src += "type %s struct {\n\tID   string\n\tName string\n\tRank int\n}\n\n" % t
+        if not bind_auto:
+            models_yml += "  %s:\n    model: {{PKG}}%s.%s\n" % (t, "" if in_exec else "/" + mdir, t)
+    files[("" if in_exec else mdir + "/") + "types_src.go"] = src
+    auto = ["{{PKG}}" + ("" if in_exec else "/" + mdir)] if bind_auto else []
+    ext = []
+    for d in shuffle(rng, ["ext/shared", "aaa/kinds", "zed/base"])[:rng.below(3)]:
+        t = tn.pop()
+        files[d + "/types_src.go"] = "package %s\n\ntype %s struct {\n\tID   string\n\tName string\n\tRank int\n}\n" % (d.split("/")[1], t)
+        auto.append("{{PKG}}/" + d)
+        ext.append(t)
+    auto = shuffle(rng, auto)
+    gen = [tn.pop() for _ in range(2 + rng.below(3))]   # generated into models_gen.go of the model package
+    enum, inp = tn.pop(), tn.pop()
+    sdl = "enum %s {\n  LOW\n  HIGH\n}\ninput %s {\n  name: String!\n  level: %s\n}\n" % (enum, "New" + inp, enum)
+    every = hand + ext + gen
+    for t in shuffle(rng, every):
+        body = ["id: ID!", "name: String!", "rank: Int!"]
+        if t in gen:
+            body.append("level: %s" % enum)
+        fp = shuffle(rng, FIELDS)
+        for _ in range(rng.below(3)):
+            body.append("%s: %s" % (fp.pop(), ["%s", "[%s!]"][rng.below(2)] % every[rng.below(len(every))]))
+        sdl += "type %s {\n  %s\n}\n" % (t, "\n  ".join(body))
+    sdl += "type Query {\n  %s\n}\n" % "\n  ".join("%s: %s" % (t.lower(), t) for t in shuffle(rng, every))
+    sdl += "type Mutation {\n  create(in: %s!): %s!\n}\n" % ("New" + inp, gen[0])
+    y = "schema:\n  - schema.graphql\nexec:\n  filename: generated.go\n  package: %s\n" % name
+    y += "model:\n  filename: %s\n  package: %s\n" % ("models_gen.go" if in_exec else mdir + "/models_gen.go", mpkg)
+    if rng.below(3):
+        y += "resolver:\n  layout: follow-schema\n  dir: res\n  package: res\n"
+    y += "skip_mod_tidy: true\n"
+    if auto:
+        y += "autobind:\n" + "".join("  - %s\n" % a for a in auto)
+    if models_yml:
+        y += "models:\n" + models_yml
+    files["schema.graphql"] = sdl
+    files["gqlgen.yml"] = y
+    return {"files": files, "meta": {"dimension": "autobind", "models_in_exec_package": in_exec, "model_package_autobound": bind_auto,
+                                     "autobind_packages": len(auto), "hand_written_in_model_package": hand, "generated": gen + [enum, "New" + inp],
+                                     "regen": {"types": every + [enum, "New" + inp], "hand": hand + ext, "autobind": bind_auto}}}
 
 
 # ------------------------------------------------------------------------------------------------ writing
